@@ -222,7 +222,7 @@ CHECKS = {
         "design_ref": "DESIGN.md §5 C17",
     },
     "C18": {
-        "level": "model_checking", "shards": 5, "deadline_quick": 100, "deadline_thorough": 1200,
+        "level": "model_checking", "shards": 6, "deadline_quick": 100, "deadline_thorough": 1200,
         "engine": "E-WORLD",
         "technique": "explicit-state model checking of the implementation: BFS by replay around one real node with scripted peers",
         "rule": WORLD_RULE,
